@@ -1,7 +1,7 @@
 (* C20 - type vocabulary helpers. Tables are regenerated from /repo on every run (Gen/TypeTables.v);
    the theorems over them are closed computations lifted to quantified statements over the finite domain. *)
 From Coq Require Import String List NArith Bool.
-From JS Require Import Base.Res Spec.Decimal Spec.TypeVocab Model.Number Model.TypeGuess Gen.TypeTables Proofs.TypeProofs.
+From JS Require Import Base.Res Spec.Decimal Spec.TypeVocab Model.Number Model.TypeGuess Gen.TypeTables Proofs.TypeProofs Model.TypeSoft.
 Import ListNotations.
 Local Open Scope string_scope.
 
